@@ -172,7 +172,7 @@ func runChild(dir string, idx int, sc Scenario, wall time.Duration) job {
 }
 
 func parent(r *vf.Run) {
-	r.Rule("every scenario = fresh tables per round, workers standing for the goroutines bio-rd itself runs concurrently (FSM goroutines feeding Adj-RIB-Ins, static/other-protocol writers of the Loc-RIB, configuration reload replacing import/export policies, RIS observers registering/unregistering/refreshing, sessions coming up and going down with started update senders, API/metrics readers, LocRIB.Dispose with late registration, a peer that stops reading (writes block) or goes away (writes fail) while announcements are queued, followed by session teardown / DisposePeer, connection collisions of active peers whose long-lived outgoing FSM had 0-2 earlier sessions and is in OpenSent again while the peer's own connection delivers its OPEN at the same time, router id above and below the peers' identifiers) with PRNG operation lists, run at GOMAXPROCS 1,2,4,16 in a child process under the no-progress watchdog; after every round a probe (Dump, AddPath, Register+Unregister on every table). Before that a single-goroutine pre-pass runs each lock-then-call-out sequence in order. distinct_nontrivial = (scenario, GOMAXPROCS, round) triples in which at least two operations were inside bio-rd at the same time (in-flight gauge) and the round and its probe completed")
+	r.Rule("every scenario = fresh tables per round, workers standing for the goroutines bio-rd itself runs concurrently (FSM goroutines feeding Adj-RIB-Ins, static/other-protocol writers of the Loc-RIB, configuration reload replacing import/export policies, RIS observers registering/unregistering/refreshing, sessions coming up and going down with started update senders, API/metrics readers, LocRIB.Dispose with late registration, a peer that stops reading (writes block) or goes away (writes fail) while announcements are queued, followed by session teardown / DisposePeer, connection collisions of active peers whose long-lived outgoing FSM had 0-2 earlier sessions and is in OpenSent again while the peer's own connection delivers its OPEN at the same time, router id above and below the peers' identifiers; sessions that are not completely up being ended: dual-family peers Established with IPv6 unicast configured but left out of the neighbor's OPEN, passive and active peers in OpenSent with a silent neighbor, each ended by an operator stop / automatic stop / the neighbor's NOTIFICATION / nothing and then DisposePeer, which must return, bio-rd must close the connection within 3 s (clause session-stop-incomplete, reconfirmed by replays) and the peers must establish again) with PRNG operation lists, run at GOMAXPROCS 1,2,4,16 in a child process under the no-progress watchdog; after every round a probe (Dump, AddPath, Register+Unregister on every table). Before that a single-goroutine pre-pass runs each lock-then-call-out sequence in order. distinct_nontrivial = (scenario, GOMAXPROCS, round) triples in which at least two operations were inside bio-rd at the same time (in-flight gauge) and the round and its probe completed")
 	r.Assume("a goroutine counts as parked in bio-rd when its wait reason is a mutex/rwmutex/channel operation and its innermost non-runtime frame is bio-rd code",
 		"lock owners are taken from the receiver types of the frames (classification of the witness only; the verdict needs none of it)",
 		"a peer connection may block writes for a while but accepts them again (a connection that blocks for ever is outside the statement); a connection may also fail every write",
@@ -297,6 +297,10 @@ func parent(r *vf.Run) {
 	r.Require("sender_write_failures", int64(r.N(50, 1000)))
 	r.Require("teardowns_after_failed_writes", int64(r.N(20, 400)))
 	r.Require("reconnect_collisions_peer_id_higher", int64(r.N(60, 2000)))
+	r.Require("established_with_unnegotiated_family", int64(r.N(40, 3000)))
+	r.Require("opensent_sessions_ended", int64(r.N(80, 6000)))
+	r.Require("connections_closed_after_dispose", int64(r.N(150, 10000)))
+	r.Watchdog("session-stop-incomplete")
 }
 
 // judge turns a child's report into evidence and violations.
@@ -336,6 +340,10 @@ func judge(r *vf.Run, j job) {
 	}
 	cs := res.Scenario
 	cs.Start = 0
+	if n := res.Notes["connections_left_open_after_dispose"]; n > 0 {
+		r.Violate(vf.Violation{Clause: "session-stop-incomplete", Features: vf.F("scenario", res.Scenario.Name), Case: cs,
+			Detail: fmt.Sprintf("scenario %s GOMAXPROCS=%d: %d session(s) were stopped (operator stop / automatic stop / NOTIFICATION, then DisposePeer returned) but bio-rd had not closed their connection %v later: the FSM never finished handling the stop", res.Scenario.Name, res.Scenario.Procs, n, speakerStepTimeout)})
+	}
 	for _, p := range res.Panics {
 		if readerKinds[p.Kind] {
 			// readers are not among the operations the statement lists; their crashes are consequences of unsynchronised
@@ -394,6 +402,8 @@ func stepText(s string) string {
 }
 
 var concPanics sync.Map
+
+const speakerStepTimeout = 3 * time.Second // = speaker.StepTimeout set in server.go
 
 var readerKinds = map[string]bool{"locRIB.Dump": true, "locRIB.LPM": true, "locRIB.Get": true, "locRIB.GetLonger": true, "adjRIBIn.Dump": true, "adjRIBOut.Dump": true,
 	"server.Metrics": true, "server.GetRIBIn/Out.Dump": true, "counts": true, "adjRIBIn.Get/LPM": true, "adjRIBOut.Get/LPM": true, "locRIB.ContainsPfxPath": true}
